@@ -5,6 +5,7 @@ This module provides functions for starting and managing Gemini servers.
 
 import asyncio
 import ssl
+import sys
 import tempfile
 from pathlib import Path
 from typing import Any
@@ -30,6 +31,10 @@ from .middleware import (
 from .protocol import GeminiServerProtocol
 from .router import Router
 from .tls_protocol import TLSServerProtocol
+
+# Time a peer is given to take the tail of a response and complete the TLS
+# shutdown once the server has closed its side, in seconds
+SSL_SHUTDOWN_TIMEOUT = 300.0
 
 
 async def start_server(
@@ -273,6 +278,7 @@ async def start_server(
             config.host,
             config.port,
             ssl=ssl_context,
+            **_ssl_shutdown_kwargs(),
         )
 
     logger.info(
@@ -285,6 +291,19 @@ async def start_server(
 
     async with server:
         await server.serve_forever()
+
+
+def _ssl_shutdown_kwargs() -> dict[str, float]:
+    """Keyword arguments giving a peer SSL_SHUTDOWN_TIMEOUT to finish a connection.
+
+    asyncio (3.11+) aborts a closing TLS connection, dropping unsent data,
+    when the TLS shutdown has not completed within ssl_shutdown_timeout
+    (30 s by default) - too short for a client on a slow link that is still
+    taking the tail of a large response.
+    """
+    if sys.version_info >= (3, 11):
+        return {"ssl_shutdown_timeout": SSL_SHUTDOWN_TIMEOUT}
+    return {}
 
 
 def _create_self_signed_context(request_client_cert: bool = False) -> ssl.SSLContext:
